@@ -67,6 +67,58 @@ PROPS['C01'] = dict(
     assumptions=['texts whose only questionable feature is an unpaired surrogate escape are judged by C05, not here'],
 )
 
+c03 = B('c03_value', 'c03_value.cpp', 'asan')
+fz03 = B('fz_value', 'c03_value.cpp', 'fuzz')
+PROPS['C03'] = dict(
+    title='A successful Parse yields exactly the value the text denotes',
+    units=[
+        U(c03, 'rc', 1500, 40000, wq=4, wt=6, label='c03-rc'),
+        U(c03, 'prng', 12000, 600000, wq=6, wt=8, label='c03-prng'),
+        F(fz03, 15, 600, wq=2, wt=2, label='fz_value', dict='fuzz/json.dict', seeds='fuzz/seeds/json'),
+    ],
+    harness_alias={'fz_value': 'c03_value'},
+    rule='cases: model values (all kinds, depth <= 12, 0..130 children, duplicate keys, strings with escapes/UTF-8/control bytes, '
+         'boundary integers and doubles) rendered with random layouts (whitespace runs up to 200 bytes, leading pad 0..130, a '
+         'bracket forced onto offset 63/64/65 of a block), parsed with the pool and the freeing allocator; plus libFuzzer byte '
+         'strings that the reference accepts. Oracle: accessor-API walk of the document == generating value == refjson parse '
+         '(kinds and double bits exact, member order and duplicates kept); FindMember returns the first match; lookups and '
+         'AtPointer agree. Non-trivial: a container with >= 2 children, or a whitespace run >= 64, or depth >= 3.',
+    min_evaluations=dict(quick=8000, thorough=200000),
+    required_classes=['dup-keys', 'ws-run>=64', 'forced-bracket-at-block-edge', 'alloc:pool', 'alloc:freeing', 'depth=6+'],
+)
+
+c02 = B('c02_safety', 'c02_safety.cpp', 'asan')
+c02p = B('c02_safety', 'c02_safety.cpp', 'prod')
+fz02 = B('fz_safety', 'c02_safety.cpp', 'fuzz')
+FILL = 'max_malloc_fill_size=1073741824:malloc_fill_byte=%d'
+PROPS['C02'] = dict(
+    title='Parse is total and memory-safe on arbitrary bytes for every allocator kind',
+    units=[
+        U(c02, 'prng', 15000, 500000, wq=1, wt=2, label='c02-asan-fill0c', asan_options=FILL % 0x0c),
+        U(c02, 'prng', 15000, 500000, wq=1, wt=2, label='c02-asan-fill06', asan_options=FILL % 0x06),
+        U(c02, 'prng', 15000, 500000, wq=1, wt=2, label='c02-asan-fill07', asan_options=FILL % 0x07),
+        U(c02, 'rc', 1500, 30000, wq=2, wt=3, label='c02-asan-rc', asan_options=FILL % 0xbe),
+        U(c02p, 'prng', 15000, 500000, wq=2, wt=3, label='c02-prod-perturb'),
+        F(fz02, 15, 600, wq=3, wt=4, label='fz_safety', dict='fuzz/json.dict', seeds='fuzz/seeds/safety', field='raw',
+          asan_options=FILL % 0x0c),
+    ],
+    harness_alias={'fz_safety': 'c02_safety'},
+    rule='cases: (text, allocator kind, history). Texts: valid, single/double-fault mutants, nesting stress up to depth 1000, '
+         'wide+deep containers with a failure injected at depth 1..20, libFuzzer byte strings. Allocator kinds: pool, '
+         'SimpleAllocator (really frees), tracking allocator (ledger), pool with adaptive chunk policy. Histories: fresh; '
+         'valid-then-input; input twice; input-then-valid-then-serialise; input then move-assign; move-construct; swap. '
+         'Oracle: ASan+LSan and a reduced UBSan set with heap fill bytes 0x0c/0x06/0x07/0xbe (an unconstructed node then looks '
+         'like an owned string/object/array), tracking-allocator ledger (no foreign/double free, nothing live after '
+         'destruction), production build under mallopt(M_PERTURB) with outcome (code, offset, Dump) required to be '
+         'independent of the perturbation, same outcome when parsed twice, document reusable and correct after a failure. '
+         'Non-trivial: invalid with a container open or >1 byte consumed, or valid with depth >= 2.',
+    min_evaluations=dict(quick=20000, thorough=500000),
+    required_classes=['alloc:pool', 'alloc:freeing', 'alloc:tracking', 'alloc:adaptive-pool', 'invalid@depth4+', 'valid',
+                      'history:0', 'history:6'],
+    assumptions=['MemorySanitizer is unusable here (uninstrumented libstdc++): acting on uninitialised values is detected '
+                 'through its influence on behaviour under heap-fill perturbation, not as every uninitialised read'],
+)
+
 
 def tool_versions():
     out = {}
